@@ -443,6 +443,34 @@ func (t *fnTrans) siteAfter(site string, in ssa.Instruction, cc *ssa.CallCommon,
 			t.ghostVals[name] = v
 		}()
 	}
+	for _, sl := range fc.atSet[site] {
+		// user ghost variable: `at <site> set name = expr` (state-based, so path-sensitive)
+		i := strings.Index(sl.text, "=")
+		if i < 0 {
+			continue
+		}
+		name := strings.TrimSpace(sl.text[:i])
+		e := t.selfCtx()
+		e.results = siteResults
+		func() {
+			defer func() {
+				if r := recover(); r != nil {
+					save := t.cur.reach
+					o := t.oblige("contract", fmt.Sprintf("%s:%d", sl.file, sl.line), token.NoPos, "false", fmt.Sprintf("ghost update %s cannot be evaluated on this code: %v", name, r))
+					o.Trivial = false
+					o.Reach = "true"
+					t.cur.reach = save
+				}
+			}()
+			x, err := parseSpec(strings.TrimSpace(sl.text[i+1:]))
+			if err != nil {
+				panic(err)
+			}
+			v := e.eval(x)
+			hv := t.h.reg("ghost:u:"+name, v.sort)
+			t.h.set(t.cur, hv, v.term)
+		}()
+	}
 	for _, sl := range fc.atAssume[site] {
 		e := t.selfCtx()
 		e.results = siteResults
